@@ -578,9 +578,76 @@ def check_layer_updates(seed):
     return ("layer-update:" + r[0], " ; ".join(log) + f" -> {r[0]} = {r[1]!r}", f"{r[0]} = {r[2]!r}")
 
 
+def check_legacy_water(seed):
+    """the water content given in its other documented definition (liquid_water: volume of water over volume of ice and water) describes the
+    same layer as the volumetric one: the layer reports the value given, and fractions consistent with the density"""
+    from smrt import make_snow_layer
+    from smrt.core.globalconstants import DENSITY_OF_ICE, DENSITY_OF_WATER
+    rng = np.random.default_rng(seed)
+    rho = round(float(rng.uniform(100, 600)), 1)
+    lw = round(float(rng.uniform(0.01, 0.3)), 3)
+    lay = make_snow_layer(0.1, "exponential", density=rho, temperature=273.15, corr_length=2e-4, liquid_water=lw)
+    f = rho / ((1 - lw) * DENSITY_OF_ICE + lw * DENSITY_OF_WATER)       # mass of ice and water per volume of snow
+    got = dict(liquid_water=float(lay.liquid_water), frac_volume=float(lay.frac_volume), density=float(lay.density))
+    want = dict(liquid_water=lw, frac_volume=f, density=rho)
+    if getattr(lay, "volumetric_liquid_water", None) is not None:
+        got["volumetric_liquid_water"], want["volumetric_liquid_water"] = float(lay.volumetric_liquid_water), lw * f
+    bad = {k: (got[k], want[k]) for k in want if not abs(got[k] - want[k]) <= 1e-9 * max(1.0, abs(want[k]))}
+    if bad:
+        return ("layer:legacy-water", f"make_snow_layer(density={rho}, liquid_water={lw}): " + ", ".join(f"{k}={v[0]!r} (expected {v[1]!r})" for k, v in bad.items()),
+                str({k: v[1] for k, v in bad.items()}))
+    return None
+
+
+def check_deepcopy_independent(seed):
+    """deepcopy gives a medium that shares nothing with the original: editing every layer, microstructure, interface and the substrate of the
+    copy leaves the description of the original as it was"""
+    from smrt import make_snowpack, make_soil
+    rng = np.random.default_rng(seed)
+    n = int(rng.integers(1, 5))
+    sub = make_soil("soil_wegmuller", complex(6, 0.5), temperature=270, roughness_rms=0.01)
+    sp = make_snowpack([round(float(v), 2) for v in rng.uniform(0.1, 1, n)], "sticky_hard_spheres", density=[round(float(v), 1) for v in rng.uniform(150, 450, n)],
+                       temperature=[260.0] * n, radius=[round(float(v), 6) for v in rng.uniform(1e-4, 5e-4, n)], stickiness=0.3, substrate=sub)
+
+    def describe(m):
+        return [(float(l.thickness), float(l.density), float(l.frac_volume), float(l.temperature), float(l.microstructure.frac_volume), float(l.microstructure.radius),
+                 float(l.microstructure.stickiness)) for l in m.layers] + [float(m.substrate.roughness_rms), float(m.substrate.temperature), len(m.interfaces)]
+    before = describe(sp)
+    cp = sp.deepcopy()
+    shared = [nm for nm, a, b in ([("layers[%d]" % i, x, y) for i, (x, y) in enumerate(zip(sp.layers, cp.layers))]
+                                  + [("layers[%d].microstructure" % i, x.microstructure, y.microstructure) for i, (x, y) in enumerate(zip(sp.layers, cp.layers))]
+                                  + [("interfaces[%d]" % i, x, y) for i, (x, y) in enumerate(zip(sp.interfaces, cp.interfaces))]
+                                  + [("substrate", sp.substrate, cp.substrate)]) if a is b]
+    for l in cp.layers:
+        l.update(density=float(l.density) + 50.0, temperature=250.0)
+        l.microstructure.radius = 2 * l.microstructure.radius
+        l.microstructure.stickiness = 0.2
+        l.thickness = 2 * l.thickness
+    cp.substrate.roughness_rms = 0.05
+    cp.substrate.temperature = 255.0
+    after = describe(sp)
+    if after != before:
+        k = next(i for i, (a, b) in enumerate(zip(before, after)) if a != b)
+        return ("deepcopy:independent", f"editing the deepcopy of a {n}-layer medium changes the original: entry {k} was {before[k]} and is now {after[k]}",
+                str(before[k]))
+    if shared:
+        return ("deepcopy:independent", f"the deepcopy of a {n}-layer medium shares {shared} with the original", "no shared object")
+    return None
+
+
 def oracle(ctx, hints, effort):
     rng = ctx.np
     findings, evals = {}, 0
+    for fn_, kind_ in ((check_legacy_water, "legacy-water"), (check_deepcopy_independent, "deepcopy-independent")):
+        for it in range(3 if effort == "routine" else 12):
+            sd = int(rng.integers(0, 2**31))
+            evals += 1
+            try:
+                r = fn_(sd)
+            except AssertionError:
+                continue
+            if r is not None:
+                findings.setdefault(r[0], Finding(r[0], r[1], {"kind": kind_, "seed": sd}, r[1], r[2]))
     for _ in range(40 if effort == "routine" else 400):
         evals += 1
         sd = int(rng.integers(0, 2**31))
@@ -646,6 +713,9 @@ def oracle(ctx, hints, effort):
 
 
 def replay(inp, rp=None):
+    if inp["kind"] in ("legacy-water", "deepcopy-independent"):
+        r = (check_legacy_water if inp["kind"] == "legacy-water" else check_deepcopy_independent)(inp["seed"])
+        return Finding("?", r[1], inp, r[1], r[2]) if r else None
     if inp["kind"] == "history":
         r = check_history(inp["ops"])
         return Finding("?", r[1], inp, r[1], r[2]) if r else None
